@@ -65,6 +65,26 @@ class HostileEq(object):
         return 'HostileEq(%s)' % ', '.join('%s=%r' % kv for kv in sorted(self.__dict__.items()))
 
 
+def owner_only_repr(self):
+    """__repr__/__str__ of a service object that only its owner can print (a lazy proxy whose backend is gone, a row of a closed
+    session): it raises for the framework and for the logging module, which have no business printing service values."""
+    import sys
+    fn = sys._getframe(1).f_code.co_filename.replace('\\', '/')
+    if '/playback/' in fn or '/logging/' in fn:
+        raise RuntimeError('this object cannot be printed: its session is closed')
+    return '%s(%s)' % (type(self).__name__, ', '.join('%s=%r' % kv for kv in sorted(self.__dict__.items())))
+
+
+class Unprintable(object):
+    """Encodable like any plain object, but see owner_only_repr."""
+
+    def __init__(self, **kw):
+        self.__dict__.update(kw)
+
+    __repr__ = owner_only_repr
+    __str__ = owner_only_repr
+
+
 class UserError(Exception):
     """Ordinary exception raised by generated service code."""
 
